@@ -165,6 +165,7 @@ impl Matrix {
             cli_prepend: vec![],
             cli_append: vec![],
             cli_timeout_s: cli,
+            cram_compat: false,
         }
     }
 }
@@ -199,6 +200,7 @@ impl Decision {
             cli_prepend: vec![],
             cli_append: vec![],
             cli_timeout_s: self.cli_timeout_s,
+            cram_compat: false,
         }
     }
 }
